@@ -25,6 +25,32 @@ pub struct SvModule {
     pub outputs: Vec<Port>,
     pub clock: Option<ClockInfo>,
     pub features: Vec<String>,
+    /// (site, type, signing) of every declaration made by a `sgn_*` feature
+    pub sign_decls: Vec<(String, String, String)>,
+    /// number of sign-sensitive uses (widening, >>>, <=, /, mix with $signed) of those objects
+    pub sign_uses: usize,
+}
+
+/// Declaration-signing features `sgn_<site>_<type>_<signing>`: one object declared at `site`
+/// (port, var, param = localparam, hparam = header parameter, farg = function input argument) with `type`
+/// and an explicit / absent signing keyword, then used in sign-sensitive contexts with its top bit set.
+pub fn sgn_features() -> Vec<String> {
+    let mut v = vec![];
+    let sites_types: &[(&str, &[&str])] = &[
+        ("port", &["logic", "bit", "reg"]),
+        ("var", &["logic", "bit", "reg", "int", "integer", "byte", "shortint", "longint"]),
+        ("param", &["logic", "int"]),
+        ("hparam", &["logic"]),
+        ("farg", &["logic", "int", "byte"]),
+    ];
+    for (site, tys) in sites_types {
+        for ty in *tys {
+            for sg in ["none", "signed", "unsigned"] {
+                v.push(format!("sgn_{site}_{ty}_{sg}"));
+            }
+        }
+    }
+    v
 }
 
 pub const FEATURES: &[&str] = &[
@@ -122,7 +148,9 @@ pub fn generate(rng: &mut Rng, features: &[&str]) -> SvModule {
     let mut g = G { rng };
     let env8: Vec<&str> = vec!["a", "b", "{4'd0, c}"];
     let has = |f: &str| features.contains(&f);
-    let mut params = String::new();
+    let mut hdr_params: Vec<String> = vec![];
+    let mut sign_decls: Vec<(String, String, String)> = vec![];
+    let mut sign_uses = 0usize;
     let mut extra_ports = String::new();
     let mut inputs = vec![port("a", 8, false, false), port("b", 8, false, false), port("c", 4, false, false)];
     let mut decls = String::new();
@@ -141,17 +169,17 @@ pub fn generate(rng: &mut Rng, features: &[&str]) -> SvModule {
 
     // ---- header features
     if has("param_typed_unsigned") {
-        params = "#(parameter int unsigned W = 8) ".into();
+        hdr_params.push("parameter int unsigned W = 8".into());
         a_ty = "logic [W-1:0]".into();
         y1_terms.push("(a + W)".into());
     }
     if has("param_typed_int") {
-        params = "#(parameter int W = 8) ".into();
+        hdr_params.push("parameter int W = 8".into());
         a_ty = "logic [W-1:0]".into();
         y1_terms.push("(a + W)".into());
     }
     if has("param_implicit") {
-        params = "#(parameter W = 8) ".into();
+        hdr_params.push("parameter W = 8".into());
         a_ty = "logic [W-1:0]".into();
         y1_terms.push("(a + W)".into());
     }
@@ -457,6 +485,85 @@ pub fn generate(rng: &mut Rng, features: &[&str]) -> SvModule {
         y1_terms.push(q);
     }
 
+    // ---- declaration-signing features
+    for f in features.iter().filter(|f| f.starts_with("sgn_")) {
+        let parts: Vec<&str> = f.split('_').collect();
+        if parts.len() != 4 {
+            continue;
+        }
+        let (site, ty, sg) = (parts[1], parts[2], parts[3]);
+        let (w, atom) = match ty {
+            "byte" => (8usize, true),
+            "shortint" => (16, true),
+            "int" | "integer" => (32, true),
+            "longint" => (64, true),
+            _ => (8, false),
+        };
+        let kw = match sg {
+            "signed" => " signed",
+            "unsigned" => " unsigned",
+            _ => "",
+        };
+        let tytext = if atom { format!("{ty}{kw}") } else { format!("{ty}{kw} [7:0]") };
+        // a value whose top bit is always set
+        let src = match w {
+            8 => "(a | 8'h80)".to_string(),
+            16 => "{(a | 8'h80), b}".to_string(),
+            32 => "{(a | 8'h80), b, a, b}".to_string(),
+            _ => "{(a | 8'h80), b, a, b, a, b, a, b}".to_string(),
+        };
+        sign_decls.push((site.to_string(), ty.to_string(), sg.to_string()));
+        if site == "farg" {
+            let fname = fresh("fs");
+            let fr = fresh("fr");
+            decls.push_str(&format!(
+                "    function automatic logic [{}:0] {fname}(input {tytext} p);\n        return {{(p + {}'sd0)}} ^ {{8'd0, (p >>> 2)}} ^ {{{}'d0, (p <= {w}'sd3)}} ^ {{8'd0, (p / {w}'sd2)}};\n    endfunction\n",
+                w + 7,
+                w + 8,
+                w + 7
+            ));
+            decls.push_str(&format!("    logic [{}:0] {fr};\n", w + 7));
+            body.push_str(&format!("    assign {fr} = {fname}({src});\n"));
+            y1_terms.push(format!("{fr}[{}:{}]", w + 7, w));
+            y1_terms.push(format!("{fr}[{}:{}]", w - 1, w - 8));
+            y1_terms.push(format!("{fr}[7:0]"));
+            sign_uses += 4;
+            continue;
+        }
+        let x = if site == "port" { fresh("u") } else { fresh("x") };
+        match site {
+            "port" => {
+                extra_ports.push_str(&format!("    input  {tytext} {x},\n"));
+                inputs.push(port(&x, w, sg == "signed", false));
+            }
+            "var" => {
+                decls.push_str(&format!("    {tytext} {x};\n"));
+                body.push_str(&format!("    assign {x} = {src};\n"));
+            }
+            "param" => {
+                let v = g.rng.next_u64() | (1u64 << (w - 1));
+                let v = if w == 64 { v } else { v & ((1u64 << w) - 1) };
+                decls.push_str(&format!("    localparam {tytext} {x} = {w}'h{v:x};\n"));
+            }
+            _ => {
+                let v = (g.rng.next_u64() & 0xff) | 0x80;
+                hdr_params.push(format!("parameter {tytext} {x} = 8'h{v:x}"));
+            }
+        }
+        let (tw, sh, dv, mx) = (fresh("tw"), fresh("sh"), fresh("dv"), fresh("mx"));
+        decls.push_str(&format!("    logic [{}:0] {tw};\n    logic [{}:0] {sh};\n    logic [{}:0] {dv};\n    logic [{}:0] {mx};\n", w + 7, w - 1, w - 1, w - 1));
+        body.push_str(&format!("    assign {tw} = ({x} + {}'sd0);\n", w + 8)); // widening: sign- or zero-extension of the object
+        body.push_str(&format!("    assign {sh} = ({x} >>> 2);\n")); // arithmetic only for a signed object
+        body.push_str(&format!("    assign {dv} = ({x} / {w}'sd2);\n")); // signed or unsigned division
+        body.push_str(&format!("    assign {mx} = ({x} + $signed(c));\n")); // c is sign-extended only next to a signed object
+        y1_terms.push(format!("{tw}[{}:{}]", w + 7, w));
+        y1_terms.push(format!("{sh}[{}:{}]", w - 1, w - 8));
+        y1_terms.push(format!("{dv}[{}:{}]", w - 1, w - 8));
+        y1_terms.push(format!("{mx}[7:0]"));
+        y1_terms.push(format!("{{7'd0, ({x} <= {w}'sd3)}}")); // signed or unsigned comparison
+        sign_uses += 5;
+    }
+
     // ---- outputs
     let y0 = g.safe(&env8, 2);
     body.push_str(&format!("    assign y0 = {y0};\n"));
@@ -467,6 +574,7 @@ pub fn generate(rng: &mut Rng, features: &[&str]) -> SvModule {
     }
     let _ = y1_driven;
 
+    let params = if hdr_params.is_empty() { String::new() } else { format!("#({}) ", hdr_params.join(", ")) };
     let mut text = String::new();
     text.push_str(&pre);
     text.push_str(&format!("module m {params}(\n    input  logic clk,\n    input  logic rst,\n    input  {a_ty} a,\n    input  logic [7:0] b,\n    input  logic [3:0] c,\n"));
@@ -483,5 +591,7 @@ pub fn generate(rng: &mut Rng, features: &[&str]) -> SvModule {
         outputs: vec![port("y0", 8, false, true), port("y1", 8, false, true)],
         clock,
         features: features.iter().map(|s| s.to_string()).collect(),
+        sign_decls,
+        sign_uses,
     }
 }
